@@ -64,6 +64,14 @@ func (g *Gen) VerifyUnit(ct *Contract, inst *ssa.Function) (res *UnitResult) {
 	}
 	if ct.Trusted {
 		res.Trusted = true
+		if ct.Recovers != "" {
+			ob := &Obligation{Unit: res.Unit, Name: "guard:recover", Kind: "guard", Clause: "the function installs a deferred recover that converts a panic of its callees into an error result: " + ct.Recovers,
+				Pos: g.fset.Position(fn.Pos()).String(), Result: "sat", Backend: "structural check on go/ssa", Detail: "no deferred closure calling recover() and assigning a result was found in the entry block"}
+			if recoversIntoResult(fn) {
+				ob.Result, ob.Detail = "unsat", ""
+			}
+			res.Obs = append(res.Obs, ob)
+		}
 		return res
 	}
 	for i := range ct.Asserts {
@@ -956,4 +964,47 @@ func mentionsWord(text, w string) bool {
 		}
 		i = j + len(w)
 	}
+}
+
+// recoversIntoResult: the entry block defers a closure that calls recover() and stores into a
+// captured variable (the named result), so that a panic below turns into an ordinary return.
+func recoversIntoResult(fn *ssa.Function) bool {
+	if len(fn.Blocks) == 0 {
+		return false
+	}
+	for _, in := range fn.Blocks[0].Instrs {
+		d, ok := in.(*ssa.Defer)
+		if !ok {
+			continue
+		}
+		var cl *ssa.Function
+		switch v := d.Call.Value.(type) {
+		case *ssa.MakeClosure:
+			cl, _ = v.Fn.(*ssa.Function)
+		case *ssa.Function:
+			cl = v
+		}
+		if cl == nil {
+			continue
+		}
+		callsRecover, storesFree := false, false
+		for _, b := range cl.Blocks {
+			for _, i2 := range b.Instrs {
+				if c, ok := i2.(*ssa.Call); ok {
+					if bi, ok := c.Call.Value.(*ssa.Builtin); ok && bi.Name() == "recover" {
+						callsRecover = true
+					}
+				}
+				if st, ok := i2.(*ssa.Store); ok {
+					if _, ok := st.Addr.(*ssa.FreeVar); ok {
+						storesFree = true
+					}
+				}
+			}
+		}
+		if callsRecover && storesFree {
+			return true
+		}
+	}
+	return false
 }
